@@ -336,8 +336,59 @@ def _jury(ctx, rule="R35.4"):
     ctx.assume("D = 1 + gamma*dt/2 > 0 (gamma >= 0, dt > 0); omega_0*dt < 2 is enforced by the guard on every coupled axis (R35.4 guard rule)")
 
 
+def _material_rows(ctx):
+    """compute_allowed_dispersive_coefficients: row k of every table holds the coefficients of the k-th material of the
+    common (sorted) order — whatever the dictionary's insertion order — zero-padded beyond the material's own poles,
+    all-zero for a material without dispersion."""
+    from ..harness import stub_repo_calls
+
+    ix = ctx.index
+    f = ix.function("fdtdx.materials.compute_allowed_dispersive_coefficients")
+    ctx.unit(f.where())
+    M = ix.cls("fdtdx.materials.Material")
+    mats = {
+        "gold": Obj(M, dict(dispersion=Obj(None, dict(poles=("gold", "gold")), "d_gold"), has_isotropic_dispersion=True, has_axis_aligned_dispersion=True), "gold"),
+        "air": Obj(M, dict(dispersion=None, has_isotropic_dispersion=True, has_axis_aligned_dispersion=True), "air"),
+        "glass": Obj(M, dict(dispersion=Obj(None, dict(poles=("glass",)), "d_glass"), has_isotropic_dispersion=True, has_axis_aligned_dispersion=True), "glass"),
+    }
+    order = ["air", "glass", "gold"]  # the common order (ascending permittivity); the dictionary is built gold, air, glass
+    bad = []
+    for ncomp, ccomp in ((1, 1), (3, 3), (3, 9)):
+        it = ctx.fresh_interp()
+        it.ext_handlers["np.zeros"] = _np_zeros
+
+        def coeffs(it_, a, k):
+            tag, n = a[0][0], len(a[0])
+            mk = lambda nm, w: NdArr((n, w), [Rat.atom((nm, tag, p_, c_)) for p_ in range(n) for c_ in range(w)])
+            return mk("c1", 3), mk("c2", 3), mk("c3", 9), mk("c4", 9)
+
+        stub_repo_calls(it, {"compute_pole_coefficients_tensor": coeffs, "compute_ordered_material_name_tuples": lambda it_, a, k: [(nm, mats[nm]) for nm in order]})
+        try:
+            out = it.call(it.closure_of(f), [dict(mats), DT, 2, ncomp, ccomp], {})
+        except Raised as r:
+            raise AnalysisError(f"compute_allowed_dispersive_coefficients raises: {r}")
+        widths = {"c1": ncomp, "c2": ncomp, "c3": ccomp, "c4": ccomp}
+        diag = (0, 4, 8)
+        for nm, T in zip(("c1", "c2", "c3", "c4"), out):
+            w = widths[nm]
+            if not (isinstance(T, NdArr) and T.shape == (3, 2, w)):
+                bad.append((nm, "shape", getattr(T, "shape", T)))
+                continue
+            for row, mname in enumerate(order):
+                npoles = {"air": 0, "glass": 1, "gold": 2}[mname]
+                for p_ in range(2):
+                    for c_ in range(w):
+                        src_col = c_ if (w == 9 or nm in ("c1", "c2")) else diag[c_]
+                        want = Rat.atom((nm, mname, p_, src_col)) if p_ < npoles else Rat.const(0)
+                        got = to_rat(T.data[(row * 2 + p_) * w + c_])
+                        if not got.equals(want):
+                            bad.append(((ncomp, ccomp), nm, f"row {row} ({mname}) pole {p_} column {c_}", got.fmt()[:80], want.fmt()[:80]))
+    ctx.ob("R35.5", "compute_allowed_dispersive_coefficients:rows", not bad, "row k of c1..c4 is the k-th material of the common order (not of the dictionary's insertion order): its own pole coefficients (first num_components columns; all nine, or the diagonal, of the couplings), zero in the padded pole slots and for a material without dispersion", bad[:3], "rows in common order, zero padding")
+
+
 def run(ctx):
     _coefficients(ctx)
+    _material_rows(ctx)
     _inverse(ctx)
     _accessors(ctx)
     _jury(ctx)
